@@ -41,7 +41,7 @@ func (c05) Cases(tier string) int {
 }
 
 func (c05) Rule() string {
-	return "fixed fan-out queries and generated queries over fixed and random federations, optionally with 1-2 injected failures (addressed by join id so that they do not depend on the schedule); each case is executed once unscheduled and then under 11 (quick) / 33 (thorough) controlled schedules: every service call and every executor goroutine about to publish its result parks at a gate (under the starve-collector policy also the collector, each time it has received a result) and a controller releases one parked goroutine at a time by policy {random, LIFO, FIFO, deepest path first, shallowest first, calls first, publishers first, starve the collector so that the result channel stays full, hold goroutines that are about to start a dependent step}; gates: service calls, the publish site, the spawn site and (when starving it) the collector; list fan-out up to 18; the response data and the multiset of error messages must be identical in all runs; the harness is built with -race and a reported race kills the worker (attributed to the case); non-trivial = at least 3 service calls; distinct = distinct (federation, query, faults)"
+	return "L2.insert: 40 generated sequences of executorInsertObject calls per case (random targets and paths that mostly follow the target's structure, and executor-style message sets in parents-first and in deliberately wrong orders) compared with the Lean stitching model Ins.apply (value or index of the first rejected message); then fixed fan-out queries and generated queries over fixed and random federations, optionally with 1-2 injected failures (addressed by join id so that they do not depend on the schedule); each case is executed once unscheduled and then under 11 (quick) / 33 (thorough) controlled schedules: every service call and every executor goroutine about to publish its result parks at a gate (under the starve-collector policy also the collector, each time it has received a result) and a controller releases one parked goroutine at a time by policy {random, LIFO, FIFO, deepest path first, shallowest first, calls first, publishers first, starve the collector so that the result channel stays full, hold goroutines that are about to start a dependent step}; gates: service calls, the publish site, the spawn site and (when starving it) the collector; list fan-out up to 18; the response data and the multiset of error messages must be identical in all runs; the harness is built with -race and a reported race kills the worker (attributed to the case); non-trivial = at least 3 service calls; distinct = distinct (federation, query, faults)"
 }
 
 func errMultiset(err error) []string {
@@ -74,6 +74,19 @@ func (c05) Run(c *Ctx, i int) CaseResult {
 		in.ListLen = 11 + r.Intn(8) // more simultaneous results than the result channel holds
 	}
 	res := CaseResult{ID: fmt.Sprintf("gen:%d", i)}
+	// L2: the stitching model against executorInsertObject (40 generated insertion sequences per case)
+	insFeat := map[string]bool{}
+	for k := 0; k < 40; k++ {
+		fails, feats := InsertCorr(c, c.Rand(i*1000+k+77000000))
+		for _, f := range feats {
+			insFeat[f] = true
+		}
+		if len(fails) > 0 {
+			res.Nontrivial = true
+			res.Fails = fails
+			return res
+		}
+	}
 	ref, err := RunFed(c, in, 8*time.Second)
 	if err != nil {
 		res.Fails = append(res.Fails, Failure{Channel: "harness", Classifier: "harness-error", What: err.Error(), Input: in})
@@ -154,7 +167,7 @@ func (c05) Run(c *Ctx, i int) CaseResult {
 		}
 	}
 	res.Counters = map[string]int{"service_calls": ncalls, "schedules": nsched, "releases": released}
-	res.Features = []string{fmt.Sprintf("faults-%d", len(in.Faults))}
+	res.Features = append(FeatList(insFeat), fmt.Sprintf("faults-%d", len(in.Faults)))
 	if i%23 == 0 {
 		res.Sample = map[string]interface{}{"query": in.Query, "faults": in.Faults, "calls": ncalls, "schedules": nsched, "releases": released}
 	}
